@@ -8,7 +8,7 @@
    C++ is checked on every run by tools/checks/c15.py (harness/h_lin.cpp vs the extraction of this file).
 
    The file also contains: lop / lop_step / lop_sem (sequences of operator applications on one object, the protocol of
-   the correspondence), the specification side (eval, lwf, lnz) and to_string(lin) (the sharing key of lra_theory).
+   the correspondence), the specification side (eval, lwf, lnz). to_string(lin) is modelled in base/ArithStr.v.
 
    Which forms leave zero coefficients in the map (as in the C++):
      lin(v, 0)                     keeps  v -> 0
@@ -16,10 +16,9 @@
      l / (+-inf)                   keeps every key with coefficient 0
      l *= 0, l /= (+-inf)          clear the map
      + - += -= (lin operands)      erase a coefficient that becomes 0 *)
-From Coq Require Import ZArith NArith QArith List Bool Sorted String DecimalString.
+From Coq Require Import ZArith NArith QArith List Bool Sorted.
 From ORatio Require Import gen.Gen_arith base.RatSpec.
 Import ListNotations.
-Local Open Scope string_scope.
 Local Open Scope Z_scope.
 
 Definition var := N.
@@ -190,37 +189,3 @@ Definition lop_nzok (o : lop) : Prop :=
   | OMulR k | ORMul k => nonzero k
   | _ => True
   end.
-
-(* ------------------------------------------------------------------------------------------- *)
-(* to_string(rational) and to_string(lin): the text lra_theory uses as the sharing key of an expression.
-   Modelled as written (std::to_string of a long / size_t = Coq's decimal printer NilZero.string_of_int / _uint);
-   tied to the C++ by the same correspondence run (every printed state carries its to_string). No theorem here:
-   injectivity on canonical zero-free expressions belongs to C11. *)
-(* ------------------------------------------------------------------------------------------- *)
-Definition str_Z (z : Z) : string := NilZero.string_of_int (Z.to_int z).
-Definition str_N (n : N) : string := NilZero.string_of_uint (N.to_uint n).
-
-Definition rat_to_string (r : rat) : string :=
-  if Z.eqb (rat_den r) 0 then (if Z.gtb (rat_num r) 0 then "+inf" else "-inf")
-  else if Z.eqb (rat_den r) 1 then str_Z (rat_num r)
-  else str_Z (rat_num r) ++ "/" ++ str_Z (rat_den r).
-
-Definition term_first (t : var * rat) : string :=
-  if rat_eq_rat (snd t) rat_ONE then "x" ++ str_N (fst t)
-  else if rat_eq_rat (snd t) (rat_neg rat_ONE) then "-x" ++ str_N (fst t)
-  else rat_to_string (snd t) ++ "*x" ++ str_N (fst t).
-
-Definition term_next (t : var * rat) : string :=
-  if rat_eq_rat (snd t) rat_ONE then " + x" ++ str_N (fst t)
-  else if rat_eq_rat (snd t) (rat_neg rat_ONE) then " - x" ++ str_N (fst t)
-  else if is_positive_rat (snd t) then " + " ++ rat_to_string (snd t) ++ "*x" ++ str_N (fst t)
-  else " - " ++ rat_to_string (rat_neg (snd t)) ++ "*x" ++ str_N (fst t).
-
-Definition lin_to_string (l : lin) : string :=
-  match lin_vars l with
-  | [] => rat_to_string (lin_known l)
-  | t :: ts =>
-      term_first t ++ String.concat "" (map term_next ts)
-      ++ (if is_positive_rat (lin_known l) then " + " ++ rat_to_string (lin_known l) else "")
-      ++ (if is_negative_rat (lin_known l) then " - " ++ rat_to_string (rat_neg (lin_known l)) else "")
-  end%string.
